@@ -47,6 +47,12 @@ def main():
             continue
         try:
             open(path, "w").write(src.replace(m["old"], m["new"]))
+            for extra in m.get("also", []):
+                p2 = os.path.join(REPO, extra["file"])
+                s2 = open(p2).read()
+                if s2.count(extra["old"]) != 1:
+                    raise RuntimeError("%s: secondary anchor occurs %d times" % (m["id"], s2.count(extra["old"])))
+                open(p2, "w").write(s2.replace(extra["old"], extra["new"]))
             t0 = time.time()
             checks = m.get("checks") or [m["prop"]]
             outcome = {}
